@@ -406,7 +406,8 @@ def checkPipe (cf : List String) (impl : String) : String :=
       let hooks := (parts.find? (·.startsWith "hooks=")).getD "hooks=?"
       let finished := status == "ok"
       -- 1. termination
-      if status == "timeout" then
+      if status == "skipped-after-timeouts" then "SKIP earlier pipeline runs of this batch did not terminate"
+      else if status == "timeout" then
         let stuck := groups.filterMap fun g => match checkGroup g true with
           | .viol m => some m
           | _ => none
